@@ -261,3 +261,52 @@ func ZZ_C09_requestsAtArbitraryTimes() {
 	nondet.Reach("C09.requests.two-touching-syncs", nTouched >= 2)
 	nondet.Reach("C09.requests.a-request-was-postponed", nTouched < nReq)
 }
+
+// ZZ_C09_largeCreationStep: "in one sync the active replica set creates at most min(maxParallelPodCreation,
+// (1 + floor(t / slowStartIntervalDuration)) * slowStartAdditiveIncrease) pods" counted where it matters — the
+// Create calls of the whole sync, not the list the strategy computes — and for steps larger than any batching
+// inside the controller: 21, 30 or 40 nodes without pod, the replica set active for 2m30s, increase 8 per
+// minute, maxParallelPodCreation 22 or 30: the sync issues exactly min(cap, 24, nodes) creations, one per node.
+func ZZ_C09_largeCreationStep() {
+	n := 21
+	switch nondet.String("nodes", "21", "30", "40") {
+	case "30":
+		n = 30
+	case "40":
+		n = 40
+	}
+	c, ds, rsNew, _ := zzStore(n)
+	ds.Status.ActiveReplicaSet = rsNew.Name
+	eight := intstr.FromInt(8)
+	ds.Spec.Strategy.RollingUpdate.SlowStartAdditiveIncrease = &eight
+	ds.Spec.Strategy.RollingUpdate.SlowStartIntervalDuration = &metav1.Duration{Duration: time.Minute}
+	maxParallel := int32(22)
+	if nondet.Bool("maxParallel30") {
+		maxParallel = 30
+	}
+	ds.Spec.Strategy.RollingUpdate.MaxParallelPodCreation = &maxParallel
+	since := metav1.NewTime(nondet.Base().Add(-150 * time.Second))
+	rsNew.Status.Conditions = append(rsNew.Status.Conditions, datadoghqv1alpha1.ExtendedDaemonSetReplicaSetCondition{Type: datadoghqv1alpha1.ConditionTypeActive, Status: corev1.ConditionTrue, LastTransitionTime: since, LastUpdateTime: since})
+	_, err := zzReconcile(zzReconciler(c, false), zzNS, rsNew.Name)
+	nondet.Assert("C09.large-step.noerror", err == nil)
+	perNode := map[string]int{}
+	creates := 0
+	for _, e := range c.Log {
+		if e.Kind == "Pod" && e.Verb == "create" {
+			creates++
+			perNode[e.Node]++
+		}
+	}
+	bound := 24 // (1 + floor(150s / 60s)) * 8
+	if int(maxParallel) < bound {
+		bound = int(maxParallel)
+	}
+	if n < bound {
+		bound = n
+	}
+	nondet.Assert("C09.large-step.creates-exactly-the-bound", creates == bound)
+	for _, k := range perNode {
+		nondet.Assert("C09.large-step.one-creation-per-node", k == 1)
+	}
+	nondet.Observe("creates", creates)
+}
